@@ -14,7 +14,7 @@ import functools
 import collections
 import numpy as np
 import schedula as sh
-from decimal import Decimal, ROUND_HALF_UP
+from decimal import Decimal, ROUND_HALF_UP, localcontext
 from . import (
     get_error, raise_errors, is_number, flatten, wrap_ufunc, wrap_func,
     replace_empty, Error, xfilter, wrap_impure_func, COMPILING, to_number,
@@ -356,12 +356,19 @@ FUNCTIONS['ROMAN'] = wrap_ufunc(xroman, input_parser=lambda *a: a)
 
 
 def round_up(x):
-    return float(Decimal(x).quantize(0, rounding=ROUND_HALF_UP))
+    return Decimal(x).quantize(0, rounding=ROUND_HALF_UP)
 
 
 def xround(x, d, func=round_up):
-    d = 10 ** max(min(int(d), 400), -400)  # Bounds the size of the integer.
-    v = func(abs(x * d)) / d
+    d = max(min(int(d), 400), -400)  # Bounds the size of the numbers.
+    if not np.isfinite(x):
+        return x
+    # Rounds the number as it is written (e.g., 1.005 and not its binary
+    # expansion 1.00499999999999989...).
+    with localcontext() as ctx:
+        ctx.prec = 1000
+        v = Decimal(repr(abs(float(x)))).scaleb(d)
+        v = float(Decimal(func(v)).scaleb(-d))
     return -v if x < 0 else v
 
 
